@@ -4,6 +4,14 @@ VARIANTS = {
     "plain": {},
     # queue code with sync/channel operations routed through the controlled scheduler
     "sched-queue": {"rewrite": ["internal/queue/*.go"]},
+    # notify primitive and its three clients; the connectedness manager and the peer cache are compiled on their
+    # own as virtual packages (rewritten copy of the current source file, package clause renamed)
+    "sched-conn": {"rewrite": [
+        "internal/notify/notify.go",
+        "pkg/lifecycle/*.go",
+        {"src": "connectedness_manager.go", "mode": "sync", "dst": "internal/zzverif/cm/connectedness_manager.go", "pkg": "cm"},
+        {"src": "pkg/tinder/peer_cache.go", "mode": "sync+time", "dst": "internal/zzverif/pc/peer_cache.go", "pkg": "pc"},
+    ]},
 }
 
 NOT_APPLICABLE = {}
@@ -65,5 +73,20 @@ CHECKS = {
     "SELFTEST": dict(
         harness="internal__zzverif__vsync", run="TestVerifSelfTest", level="model_checking",
         technique="engine self-test", rule="engine self-test", assumptions=[],
+    ),
+    "C16": dict(
+        variant="sched-conn", level="model_checking", gomaxprocs=2,
+        parts=[
+            dict(name="N", harness="internal__notify", run="TestVerifC16N"),
+            dict(name="CM", harness="internal__zzverif__cm", run="TestVerifC16CM"),
+            dict(name="LM", harness="pkg__lifecycle", run="TestVerifC16LM"),
+            dict(name="PC", harness="internal__zzverif__pc", run="TestVerifC16PC"),
+        ],
+        technique="stateless model checking of the real notify / connectedness-manager / lifecycle-manager / peer-cache code under a controlled scheduler (all interleavings at lock and channel operations, iterative preemption bounding)",
+        rule="4 harnesses (N notify alone, CM connectedness manager, LM lifecycle manager, PC discovery peer cache); states = distinct schedule prefixes, transitions = scheduling steps, traces = complete executions of the real code; classes = distinct (scenario, terminal observation)",
+        assumptions=["sequentially consistent interleavings at synchronisation operations only; unlock is not a preemption point",
+                     "connectedness_manager.go and peer_cache.go are compiled on their own (same source text, package clause renamed) so that the harness need not link the root package / libp2p discovery stack",
+                     "peer cache timestamps come from a virtual clock that advances 1 ns per reading",
+                     "lock order is covered dynamically (every pair of public methods as free threads), not by a static lock graph"],
     ),
 }
